@@ -62,6 +62,10 @@ type ReaderScn struct {
 	Fault      FaultScn `json:"fault"`
 	ExtraCalls int      `json:"extra_calls"`
 	Family     string   `json:"family,omitempty"`
+	// Scribble: the reader uses the part of p it does not fill as scratch space
+	// (io.Reader: "even if Read returns n < len(p), it may use all of p as
+	// scratch space during the call"): "" | garbage | newline | nul | data
+	Scribble string `json:"scribble,omitempty"`
 }
 
 type WriterScn struct {
@@ -83,6 +87,7 @@ type WalkScn struct {
 	PostNil   bool   `json:"post_nil,omitempty"`
 	View      string `json:"view"` // default | virtual-root | reversed | filtered
 	Block     int    `json:"block"`
+	RootPath  []int  `json:"root_path,omitempty"` // child indices (mod count) from the root block down to the node the walk starts at
 	HideSeed  uint64 `json:"hide_seed,omitempty"`
 	Tape      string `json:"tape"` // '1' = descend/continue, '0' = prune/abort; beyond the end: '1'
 	Reentrant bool   `json:"reentrant,omitempty"`
